@@ -309,9 +309,10 @@ func (cr *clientRunner) issue(o cop) {
 			return e1, ""
 		})
 	case opSelect:
-		cmd := c.Select(mboxNames[o.A%len(mboxNames)], &imap.SelectOptions{ReadOnly: o.B%3 == 0})
+		readOnly := o.B%4 == 3 // (the all-zero choice selects read-write: a read-only mailbox refuses STORE / EXPUNGE / MOVE)
+		cmd := c.Select(mboxNames[o.A%len(mboxNames)], &imap.SelectOptions{ReadOnly: readOnly})
 		name := "SELECT"
-		if o.B%3 == 0 {
+		if readOnly {
 			name = "EXAMINE"
 		}
 		later(name, func() (error, string) {
